@@ -191,6 +191,18 @@ Definition ensure_info (kvs : list (pyval * pyval)) : list (pyval * pyval) :=
   | None => kvs ++ [(PStr k_info, PDict [])]
   end.
 
+(* Python converts an int to float when it meets a float in + or //: OverflowError for ints of 2**1024 or more
+   (precisely: from 2**1024 - 2**970 on, which round up to 2**1024); validate() turns it into MetainfoError *)
+Definition float_limit : Z := 2 ^ 1024 - 2 ^ 970.
+Definition is_pyfloat (v : pyval) : bool := match v with PFloat _ => true | _ => false end.
+Definition huge_for_float (v : pyval) : bool := match v with PInt z => Z.abs z >=? float_limit | _ => false end.
+Definition float_clash (lens : list pyval) (L : Z) : bool :=
+  existsb is_pyfloat lens && (existsb huge_for_float lens || (Z.abs L >=? float_limit)).
+Definition guarded_ceil_div (clash : bool) (total : num) (L : Z) : res (option Z) :=
+  if clash then Err DMetainfo else ceil_div total L.
+Definition lengths_of (files : list pyval) : list pyval :=
+  flat_map (fun fi => match fi with PDict kvs => match dict_get kvs (PStr k_length) with Some v => [v] | None => [] end | _ => [] end) files.
+
 Definition lengths_sum (files : list pyval) : num :=
   fold_left (fun acc fi =>
                match fi with
@@ -235,7 +247,7 @@ Definition validate (fs : fsinfo) (kvs0 : list (pyval * pyval)) : res unit :=
           else if has_len then
             do _ <- all_rules md ex_rules_single 0 0;
             let lv := match dict_get info (PStr k_length) with Some v => v | None => PNone end in
-            do exp <- ceil_div (num_of lv) L;
+            do exp <- guarded_ceil_div (float_clash [lv] L) (num_of lv) L;
             if negb (match exp with Some e => plen / 20 =? e | None => false end)
             then (match exp with Some e => if Z.abs e >=? huge_bound then Err IValue else Err DMetainfo | None => Err DMetainfo end)
             else
@@ -265,7 +277,7 @@ Definition validate (fs : fsinfo) (kvs0 : list (pyval * pyval)) : res unit :=
                               end
                           | _ => Err IType
                           end) 0 files;
-                do exp <- ceil_div (lengths_sum files) L;
+                do exp <- guarded_ceil_div (float_clash (lengths_of files) L) (lengths_sum files) L;
                 if negb (match exp with Some e => plen / 20 =? e | None => false end)
             then (match exp with Some e => if Z.abs e >=? huge_bound then Err IValue else Err DMetainfo | None => Err DMetainfo end)
                 else
